@@ -409,7 +409,8 @@ func (a *jwtAuthenticator) getKey(
 		if entry, err := cch.Get(ctx.AppContext(), cacheKey); err == nil {
 			var jwk jose.JSONWebKey
 
-			if err = json.Unmarshal(entry, &jwk); err == nil {
+			// the cache key does not cover the validation settings of this instance
+			if err = json.Unmarshal(entry, &jwk); err == nil && a.validateJWK(&jwk) == nil {
 				logger.Debug().Msg("Reusing JWK from cache")
 
 				return &jwk, nil
